@@ -11,7 +11,9 @@ from ..estimlib import SingularMatrix, SynthOps, Sqrt, exact_solve, patched_np, 
 from ..meshgen import INITIAL_GRIDS, op_json, op_line, random_op
 from ..meshlib import PyMesh, all_elements, canon
 
-PROP_MODS = ['Stbem.Props.C20']
+from ..meshops_tie import PROP_MOD_C20 as MESHOPS_PROP_MOD, TRUSTED as MESHOPS_TRUSTED, generated_twins, translate_meshops  # noqa: E402
+
+PROP_MODS = ['Stbem.Props.C20', MESHOPS_PROP_MOD]
 RULE = ('correspondence: the REAL HierarchicalErrorEstimator.estimate / HH2ErrorEstimator.estimate / '
         'DummyElement.uniform_refinement / Prolongate run in-process on exact data and are compared textually with the '
         'Lean model: (1) children rectangles of uniform_refinement on leaves of random real meshes (Fraction '
@@ -41,6 +43,7 @@ TRUSTED = [
     'dict keyed by object identity for DummyElement',
     'not modelled: binary64 rounding in the production path (covered only by the 1e-9 float search); np.linalg.solve '
     '(LAPACK) is replaced by an exact solver in the correspondence run; multiprocessing',
+    MESHOPS_TRUSTED,
 ]
 ASSUMPTIONS = [
     'the leaves bilform_matrix(test, trial)[i, j] = <V 1_trial_j, 1_test_i>, linform_vector, g(elems)_j = <g, 1_j> are '
@@ -61,6 +64,8 @@ def translate(res):
     translate.consts = c
     res.notes['child_boxes'] = [[q2s(v) for v in b] for b in c['boxes']]
     res.notes['patterns'] = c['patterns']
+    # Prolongate (and the refinement drivers the mesh histories run through) regenerated from src/mesh.py
+    translate_meshops(res)
 
 
 # ------------------------------------------------------------------------------------------------
@@ -483,6 +488,11 @@ def correspond(res, tier):
                 res.violation('C20:prolongate-identity', dict(info))
 
     res.notes['t_tie_python_s'] = round(_time.time() - t_start, 1)
+    # every mesh request (histories and Prolongate) is put to the definitions regenerated from src/mesh.py as well
+    twins, origin = generated_twins(lines)
+    for tw, i in zip(twins, origin):
+        add(tw, expect[i], dict(where[i], kind=str(where[i].get('kind')) + ' [REGENERATED from src/mesh.py: gmesh]'))
+    res.notes['generated_model_lines'] = len(twins)
     out = run_driver(lines)
     res.notes['t_tie_total_s'] = round(_time.time() - t_start, 1)
     res.notes['model_lines'] = len(lines)
